@@ -168,6 +168,17 @@ Theorem C13_load_by_prefix_all_with_prefix :
     load_range_by_prefix (q ++ [b]) keys = Some (filter (is_prefix (q ++ [b])) keys).
 Proof. exact load_by_prefix_all_with_prefix. Qed.
 
+(* foreign writes below rules/ (environment labels OCorruptRule / OCorruptDrop): what a restart guarantees then.
+   Proved for every history: Initialize is total in the model (garbage, invalid, duplicated and mis-keyed entries
+   are branches of load_rules, not errors), the configuration it serves is canonical (reachable_canonical) and the
+   storage stays a pair of sorted maps (reachable_sorted).  Still to prove (stated, checked by the monitor
+   `C13:restart-leaves-storage-different-*` on every restart of every run, true only since fix f6216a3): after a
+   successful restart the stored rules are exactly the served ones, whatever was written below rules/ before. *)
+Definition C13_restart_repairs_storage_todo : Prop :=
+  forall ops mr st' o m,
+    step (run_state step init_state ops) (ORestart mr) = (st', o) -> o_res o = ROk -> st_live st' = Some m ->
+    s_rules (st_store st') = map_vals sv (c_rules (m_conf m)).
+
 (* ---------- Part 4: concurrency ---------- *)
 (* every public method of RuleManager is one section under m's mutex (exclusive for Initialize, the updates and
    SetKeyType; shared and assignment-free for the readers); what runs before the lock only validates the
